@@ -76,6 +76,9 @@ func (e *Engine) constVal(tv types.TypeAndValue) (Val, bool) {
 	case constant.String:
 		return Val{e.StrLit(constant.StringVal(tv.Value)), tv.Type}, true
 	case constant.Float, constant.Complex:
+		if constant.Sign(constant.Real(tv.Value)) == 0 && constant.Sign(constant.Imag(tv.Value)) == 0 {
+			return Val{e.Decls.Const("fltlit!0", smt.V), tv.Type}, true
+		}
 		return Val{e.Decls.Const("fltlit!"+smt.Ident(tv.Value.ExactString()), smt.V), tv.Type}, true
 	}
 	return Val{}, false
